@@ -4,3 +4,4 @@
 #![allow(dead_code, unused)]
 pub mod c05;
 pub mod c08;
+pub mod c09;
